@@ -34,8 +34,12 @@ def main():
             tier = sys.argv[k + 1]
         if a == "--skip-suite":
             skip_suite = True
+        if a == "--no-checks":
+            checks = []
     wt = "/tmp/sv_%s_%d" % (name, os.getpid())
     meta = {"property": prop, "name": name, "when": time.strftime("%Y-%m-%d %H:%M:%S"), "ran": []}
+    old_meta = os.path.join(ROOT, "seeded", name, "meta.json")
+    prev = json.load(open(old_meta)) if os.path.exists(old_meta) else {}
     rc, out = sh("git -C /repo worktree add -q --detach %s HEAD" % wt)
     assert rc == 0, out
     env = dict(os.environ, PYTHONPATH=wt, PYTHONHASHSEED="0", MPLBACKEND="Agg")
@@ -58,8 +62,11 @@ def main():
             meta["suite_still_passes"] = rc == 0
             meta["suite"] = out.strip().split("\n")[-3:]
             meta["ran"].append("pinned suite on the changed tree: %s" % out.strip().split("\n")[0])
+        if skip_suite and "suite_still_passes" in prev:
+            meta["suite_still_passes"], meta["suite"] = prev["suite_still_passes"], prev.get("suite")
+            meta["ran"] = [x for x in prev.get("ran", []) if x.startswith("pinned suite")] + meta["ran"]
         meta["confirmed"] = bool(rc0 == 0 and rc1 != 0 and meta.get("suite_still_passes", True))
-        meta["checks"] = {}
+        meta["checks"] = dict(prev.get("checks", {}))
         for p in checks:
             t0 = time.time()
             rc, out = sh("VERIF_REPO=%s timeout 3000 ./check %s --tier %s" % (wt, p, tier), cwd=ROOT)
